@@ -10,10 +10,10 @@ M = [
  ("uint_read_not_exact", "C18", "serialize/src/impls.rs", "                reader.read_exact(&mut bytes)?;\n                Ok(<$type>::from_le_bytes(bytes))", "                let _ = reader.read(&mut bytes)?;\n                Ok(<$type>::from_le_bytes(bytes))"),
  ("serbuffer_write_not_all", "C09", "ff/src/const_helpers.rs", "        other.write_all(&self.buffers[N - 1][..num_last_limb_bytes])?;", "        let _ = other.write(&self.buffers[N - 1][..num_last_limb_bytes])?;"),
  ("ignore_first_limb_write_error", "C09", "ff/src/const_helpers.rs", "            other.write_all(&self.buffers[i])?;", "            let _ = other.write_all(&self.buffers[i]);"),
- ("drop_geq_modulus", "C09", "ff/src/fields/models/fp/montgomery_backend.rs", None, None),
+ ("drop_geq_modulus", "C09", "ff/src/fields/models/fp/montgomery_backend.rs", "        } else if r.is_geq_modulus() {\n            None", "        } else if false {\n            None"),
  ("swflags_accept_both", "C10", "ec/src/models/short_weierstrass/serialization_flags.rs", "            (true, true) => None,", "            (true, true) => Some(Self::YIsNegative),"),
  ("array_skip_batch_check", "C10", "serialize/src/impls.rs", "        if validate == Validate::Yes {\n            T::batch_check(array.iter())?\n        }\n        Ok(array.into_inner().ok().unwrap())", "        let _ = validate;\n        Ok(array.into_inner().ok().unwrap())"),
- ("bls_g1_subgroup_true", "C10", "test-curves/src/bls12_381/g1.rs", None, None),
+ ("bls_g1_subgroup_true", "C10", "curves/bls12_381/src/curves/g1.rs", "        minus_x_squared_times_p.eq(&endomorphism_p)", "        let _ = (minus_x_squared_times_p, endomorphism_p);\n        true"),
  ("te_skip_subgroup", "C10", "ec/src/models/twisted_edwards/affine.rs", "        if self.is_on_curve() && self.is_in_correct_subgroup_assuming_on_curve() {", "        if self.is_on_curve() {"),
  ("option_validate_no", "C10", "serialize/src/impls.rs", "            .then(|| T::deserialize_with_mode(&mut reader, compress, validate))", "            .then(|| T::deserialize_with_mode(&mut reader, compress, Validate::No))"),
  ("string_size_off", "C18", "serialize/src/impls.rs", "    fn serialized_size(&self, compress: Compress) -> usize {\n        self.as_bytes().serialized_size(compress)", "    fn serialized_size(&self, compress: Compress) -> usize {\n        self.as_bytes().serialized_size(compress) + (self.len() > 300) as usize"),
@@ -21,12 +21,12 @@ M = [
  ("horner_chunk_offset", "C14", "poly/src/polynomial/univariate/dense.rs", "point.pow([(i * num_elem_per_thread) as u64])", "point.pow([(i * (num_elem_per_thread + 1)) as u64])"),
  ("distribute_powers_offset", "C14", "poly/src/domain/mod.rs", "                let offset = c * g.pow([(i * num_elem_per_thread) as u64]);", "                let offset = c * g.pow([(i * (num_elem_per_thread + 1)) as u64]);"),
  ("batch_inv_no_floor", "C14", "ff/src/fields/mod.rs", "    let num_elem_per_thread = max(num_elems / num_cpus_available, min_elements_per_thread);", "    let num_elem_per_thread = num_elems / num_cpus_available + (min_elements_per_thread - 1);"),
- ("best_fft_log_ceil", "C14", "poly/src/domain/utils.rs", None, None),
- ("chunked_flush_gt", "C05", "ec/src/scalar_mul/variable_base/stream_pippenger.rs", "        if self.scalars_buffer.len() == self.buf_size {", "        if self.scalars_buffer.len() > self.buf_size {"),
+ ("parallel_fft_interleave", "C14", "poly/src/domain/utils.rs", "        .for_each(|(i, a)| *a = tmp[i % num_cosets][i / num_cosets]);", "        .for_each(|(i, a)| *a = tmp[i % num_cosets][(i / num_cosets + (num_cosets == 8) as usize) % coset_size]);"),
  ("chunked_no_clear_bases", "C05", "ec/src/scalar_mul/variable_base/stream_pippenger.rs", "            self.scalars_buffer.clear();\n            self.bases_buffer.clear();", "            self.scalars_buffer.clear();"),
  ("hashmap_overwrite", "C05", "ec/src/scalar_mul/variable_base/stream_pippenger.rs", "        *entry += *scalar.borrow();", "        *entry = *scalar.borrow();"),
  ("msm_mismatch_max", "C05", "ec/src/models/short_weierstrass/mod.rs", "            .ok_or_else(|| bases.len().min(scalars.len()))", "            .ok_or_else(|| bases.len().max(scalars.len()))"),
- ("window_rule_31", "C05", "ec/src/scalar_mul/variable_base/mod.rs", None, None),
+ ("finalize_drops_tail", "C05", "ec/src/scalar_mul/variable_base/stream_pippenger.rs", "        if !self.scalars_buffer.is_empty() {", "        if self.scalars_buffer.len() > 1 {"),
+ ("wnaf_last_digit_carry", "C05", "ec/src/scalar_mul/variable_base/mod.rs", "        if i == digits_count - 1 {\n            digit += (carry << w) as i64;\n        }", "        if i == digits_count - 1 && w != 5 {\n            digit += (carry << w) as i64;\n        }"),
 ]
 
 def sh(cmd, **kw):
